@@ -7,7 +7,7 @@ from lib import Result, RMODES, OMODES, model_call, run_sharded, e_fmt, Reader
 RULE = ('every pair of operand formats with n_word<=3 (quick) / <=5 (thorough), every code pair with divisor != 0, n_frac 0..n_word, rounding in {trunc, floor, around}, methods raw and repr; '
         'random format pairs with result word <=53 bits, extreme and random codes; operands up to 62 bits whose // and % result words are within 53 bits (x/y checked when its own word is). Checked on the implementation output with exact rationals: x/y exact when representable else one of the two '
         'neighbours (error < 1 LSB), no overflow with optimal sizing, x//y = floor(x/y), x%y = x - y*floor(x/y) with the divisor\'s sign, (x//y)*y + x%y == x, raw and repr agree on // and %; '
-        'result formats against the extracted Spec. Non-trivial = the quotient is not an integer multiple of the result LSB; distinct by formats, codes, method, rounding.')
+        'result formats against the extracted Spec; (D) x/y into an imposed format (sizing same / largest / smallest, plain-number divisors under the default configuration) when the quotient lies inside it: exact or neighbour, no flag. Non-trivial = the quotient is not an integer multiple of the result LSB; distinct by formats, codes, method, rounding.')
 ASSUMPTIONS = ['real operands, divisor != 0', 'the value (repr) method is exercised only with operands of at most 53 bits (it computes on the operands float values, which must be exact)']
 
 def fmts_small(nwmax):
@@ -86,6 +86,60 @@ def run_cases(cases, res, stratum):
                 res.fail(case, 'model Div.div_%s disagrees with the implementation although the property holds (%s)' % (case['method'], key), expected=str(mo)[:160], got=obs[key][1])
                 res.failures[-1]['no_input'] = True; break
 
+def imposed_cases(rng, n):
+    """x / y into an imposed result format: sizing same / largest / smallest, or a plain-number divisor under the default
+    configuration (the divisor becomes a constant in x's format and the result keeps x's format)"""
+    cases = []
+    while len(cases) < n:
+        def f():
+            nw = rng.choice([4, 8, 12, 16, 24, 32, 40, 48, rng.randint(2, 52)]); return (rng.random() < 0.6, nw, rng.choice([0, 1, nw // 2, nw - 2, nw - 1, rng.randint(0, nw)]))
+        fxm = f(); fym = f() if rng.random() < 0.5 else fxm
+        sizing = rng.choice(['same', 'largest', 'smallest'])
+        cx = A.interesting_codes(rng, fxm[0], fxm[1], 1)[0]; cy = A.interesting_codes(rng, fym[0], fym[1], 1)[0]
+        if rng.random() < 0.5:       # small divisors / dividends: quotients that stay inside the imposed format
+            ly, hy = S.fmt_bounds(fym[0], fym[1]); cy = max(ly, min(hy, rng.choice([1, 2, 3, -1, -2, 5, 1 << max(fym[2], 0), 1 << max(fym[2] - 1, 0), 3 << max(fym[2] - 1, 0)])))
+        if cy == 0: continue
+        c = {'x': list(fxm), 'cx': cx, 'y': list(fym), 'cy': cy, 'sizing': sizing, 'const': None}
+        if rng.random() < 0.3:
+            k = rng.choice([2, 3, 4, -2, 0.5, 0.25, 1.5, 8, -0.75]); c['const'] = k; c['y'] = list(fxm); c['sizing'] = 'same'
+        cases.append(c)
+    return cases
+
+def run_imposed(cases, res):
+    import c08
+    fx = lib.impl(); import numpy as np
+    for c in cases:
+        fxm, fym = tuple(c['x']), tuple(c['y'])
+        try:
+            x = A.mk(fx, np, *fxm, c['cx'])
+            if c['const'] is not None:
+                yk = fx.Fxp(c['const'], like=x); cy = lib.codes_of(yk)[0]      # the constant in x's format (op_input_size='same')
+                if cy == 0: continue
+                z = x / c['const']
+            else:
+                y = A.mk(fx, np, *fym, c['cy']); cy = c['cy']
+                x.config.op_sizing = c['sizing']; z = x / y
+            got = (A.fmt_of(z), lib.codes_of(z)[0], lib.status3(z))
+        except Exception as e:
+            res.fail(c, 'C09: x/y into an imposed format raised %s' % lib.exc_name(e), got=str(e)[:200]); continue
+        ft = c08.sizing_fmt(c['sizing'], '/', fxm, fym)
+        if ft is None or not (1 <= ft[1] <= 53): continue
+        qv = (Fraction(c['cx']) / Fraction(2) ** fxm[2]) / (Fraction(cy) / Fraction(2) ** fym[2])
+        t = qv * Fraction(2) ** ft[2]; zf = math.floor(t); lo, hi = S.fmt_bounds(ft[0], ft[1])
+        if not (lo <= zf and zf + 1 <= hi): continue          # (a quotient outside the imposed format is an overflow case: C01)
+        res.count('D:imposed-result-format', key=repr(c), nontrivial=t.denominator != 1)
+        res.sample(c)
+        if got[0] != ft:
+            res.fail(c, 'C09: x/y with an imposed sizing does not have the imposed format', expected=ft, got=got[0]); continue
+        if (t.denominator == 1 and got[1] != t) or got[1] not in (zf, zf + 1):
+            res.fail(c, 'C09: x/y into an imposed format is neither exact nor one of the two representable neighbours of the exact quotient', expected=[zf, zf + 1], got=got[1]); continue
+        if got[2][0] or got[2][1]:
+            res.fail(c, 'C09: x/y into an imposed format that holds the quotient raised an overflow/underflow flag', got=got[2]); continue
+        mo = S.read_model_store(model_call([[45, 0, 0] + e_fmt(*fxm) + [1, c['cx']] + e_fmt(*fym) + [1, cy] + e_fmt(*ft) + [0, 0]])[0])
+        if mo['kind'] != 'ok' or mo['codes'] != [got[1]] or mo['status'][:2] != got[2][:2]:
+            res.fail(c, 'model Div.div_raw (imposed format) disagrees with the implementation although the property holds', expected=str(mo)[:160], got=got[1])
+            res.failures[-1]['no_input'] = True
+
 def shard(shard, nshards, rng, tier, extra):
     res = Result()
     fmts = fmts_small(3 if tier == 'quick' else 5)
@@ -148,6 +202,7 @@ def shard(shard, nshards, rng, tier, extra):
         meth = rng.choice(['raw', 'repr']) if max(fxm[1], fym[1]) <= 53 else 'raw'
         cases.append((fxm, cx, fym, cy, meth, rng.choice(['trunc', 'floor', 'around'])))
     run_cases(cases, res, 'C:wide-operands-small-results')
+    run_imposed(imposed_cases(rng, (1500 if tier == 'quick' else 40000) // nshards), res)
     res.exhaustive = True
     return res
 
@@ -159,5 +214,7 @@ def classify(fl):
 
 def replay(payload):
     c = payload['case']; res = Result()
+    if 'sizing' in c:
+        run_imposed([c], res); return {'holds': not res.failures, 'failures': res.failures}
     run_cases([(tuple(c['x']), c['cx'], tuple(c['y']), c['cy'], c['method'], c['rounding'])], res, 'replay')
     return {'holds': not res.failures, 'failures': res.failures}
